@@ -153,6 +153,9 @@ def _round(r, d):
     c.add(z3.And(q - rs <= absr * _EPS + _TINY, rs - q <= absr * _EPS + _TINY))
     c.add(z3.Implies(rs >= 0, q >= 0))
     c.add(z3.Implies(rs <= 0, q <= 0))
+    # (exactness on integers - RN is the identity on |n| <= 2^53 - is a true fact that is deliberately
+    # NOT asserted: IsInt over the division terms made the C20 queries 30x slower; leaving it out only
+    # loses precision, never soundness)
     apps = c.packcache.setdefault("rn_apps", [])
     for (r0, q0) in apps:
         c.add(z3.Implies(rs <= r0, q <= q0))
